@@ -36,7 +36,7 @@ def validate_decoded(obj):
 def unsafe_encode(obj):
   if isinstance(obj, str):
     return obj
-  elif isinstance(gfapy.Placeholder):
+  elif isinstance(obj, gfapy.Placeholder):
     return str(obj)
   elif isinstance(obj, gfapy.Line):
     return str(obj.name)
